@@ -203,7 +203,9 @@ Definition align_le (a b : align) : bool :=
 Definition align_max (a b : align) : align := if align_le b a then a else b.
   (* Ord::max returns [other] when equal; equal alignments are structurally equal here *)
 
-Definition align_to_n (v a : N) : N := N.land (v + a - 1) (N.lnot (a - 1) 64).
+(** [(val + align - 1) & !(align - 1)] for a power-of-two [align]; modelled arithmetically (equal as long as
+    usize does not overflow; the offsets it produces are compared with the real ones on every run). *)
+Definition align_to_n (v a : N) : N := ((v + a - 1) / a) * a.
 
 Definition align_to_arch (v : asize) (a : align) : asize :=
   match a with
